@@ -2,6 +2,7 @@
 import itertools
 import numpy
 from vf.framework import harness
+from harness.common import grid_phase
 
 F_CF = "quantarhei/qm/corfunctions/correlationfunctions.py"
 F_SD = "quantarhei/qm/corfunctions/spectraldensities.py"
@@ -193,3 +194,76 @@ def spectral_density_addition(cx, units):
                  ["OverdampedBrownian", "OverdampedBrownian", "UnderdampedBrownian"])
     for i, c in enumerate(comps):
         cx.prove_eq("operand_untouched[%d]" % i, c.data, datas[i])
+
+
+def _parts_reference(cx, label, time, w, data):
+    """even / odd parts of the Fourier transform of a function given on the upper half axis
+    with c(-t) = conj c(t):  E(w) = dt [Re c0 + 2 sum Re c_n cos(w t_n)],
+    O(w) = -2 dt sum Im c_n sin(w t_n), at every point of the returned frequency axis"""
+    from symnum import core
+    M = 2 * time.length
+    dt = time.step
+    ev, od = [], []
+    for k in range(w.length):
+        e_acc = core.lift(data[0]).real if cx.sym else data[0].real
+        o_acc = 0
+        for n in range(1, time.length):
+            ph = grid_phase(cx, "%s[%d,%d]" % (label, k, n), w.data[k], time.data[n], M)
+            c = core.lift(data[n]) if cx.sym else data[n]
+            e_acc = e_acc + 2 * c.real * ph.real
+            o_acc = o_acc - 2 * c.imag * ph.imag
+        ev.append(e_acc * dt)
+        od.append(o_acc * dt)
+    return ev, od
+
+
+@harness("C09", "fourier_parts",
+         quick=[dict(N=3, kinds=["OB"]), dict(N=4, kinds=["VD"]), dict(N=3, kinds=["OB", "HT"])],
+         thorough=[dict(N=n, kinds=k) for n in (3, 4, 6) for k in (["OB"], ["HT"], ["VD"], ["OB", "HT"], ["HT", "OB", "OB"])] +
+                  [dict(N=12, kinds=["VD"]), dict(N=10, kinds=["OB"])],
+         functions=[F_CF + ":EvenFTCorrelationFunction.__init__", F_CF + ":OddFTCorrelationFunction.__init__",
+                    F_CF + ":CorrelationFunction.get_EvenFTCorrelationFunction",
+                    F_CF + ":CorrelationFunction.get_OddFTCorrelationFunction",
+                    "quantarhei/core/dfunction.py:DFunction.get_Fourier_transform",
+                    "quantarhei/core/dfunction.py:DFunction._add_me"],
+         bound="time axes of N = 3, 4 (thorough 6, 10, 12) points (transform length 2N, exact roots of unity); single "
+               "components and sums of 2-3 analytic components with symbolic parameters, value-defined data arbitrary "
+               "complex: the returned even / odd parts equal the cosine / sine sums of Re c / Im c on the returned "
+               "axis, hence are even / odd about the zero-frequency point (asserted separately) and the odd part "
+               "vanishes there; parts of a sum are the sums of the parts",
+         out="windowed transforms; lengths whose roots of unity have no closed radical form")
+def fourier_parts(cx, N, kinds):
+    import quantarhei as qr
+    from quantarhei.qm.corfunctions.correlationfunctions import (EvenFTCorrelationFunction,
+                                                                  OddFTCorrelationFunction)
+    with cx.concrete():
+        time = qr.TimeAxis(0.0, N, 10.0)
+    T = cx.real("T", 100.0, 300.0)
+    cx.assume(T > 0, "temperature > 0")
+    comps = [component(cx, time, k, i, T) for i, k in enumerate(kinds)]
+    cx.assume_denominators_nonzero("parameters away from the poles of the analytic formulas")
+    total = comps[0]
+    data = comps[0].data.copy()
+    for c in comps[1:]:
+        total = total + c
+        data = data + c.data
+    if kinds == ["VD"]:
+        with qr.energy_units("int"):
+            ev = EvenFTCorrelationFunction(time, total.params[0], values=data.copy())
+            od = OddFTCorrelationFunction(time, total.params[0], values=data.copy())
+    else:
+        ev = total.get_EvenFTCorrelationFunction()
+        od = total.get_OddFTCorrelationFunction()
+    cx.assume_denominators_nonzero("parameters away from the poles of the analytic formulas")
+    w = ev.axis
+    cx.prove("axis_length", w.length == 2 * N and od.axis.length == 2 * N)
+    cx.prove_eq("axes_agree", od.axis.data, w.data)
+    cx.prove_eq("zero_frequency_at_centre", w.data[N], 0)
+    e_ref, o_ref = _parts_reference(cx, "parts", time, w, data)
+    for k in range(2 * N):
+        cx.prove_eq("even_is_cosine_sum[%d]" % k, ev.data[k], e_ref[k])
+        cx.prove_eq("odd_is_sine_sum[%d]" % k, od.data[k], o_ref[k])
+    for k in range(1, N):
+        cx.prove_eq("even_part_even[%d]" % k, ev.data[N + k], ev.data[N - k])
+        cx.prove_eq("odd_part_odd[%d]" % k, od.data[N + k], -od.data[N - k])
+    cx.prove_eq("odd_part_zero_at_origin", od.data[N], 0)
